@@ -78,18 +78,20 @@ def Function.nextGlobal (f : Function) (b : FBlock) : Except Err (List Nat) :=
 
 /-- prev_blocks_global -/
 def Function.prevGlobal (f : Function) (b : FBlock) : Except Err (List Nat) :=
-  match f.sub? b.sub with
-  | none => .error "TealerException"
-  | some s =>
-    if s.entry == b.key then
-      if s.name != f.main.name then .ok s.callers else .ok []
-    else
-      match f.callsubBlockOf b with
-      | some c =>
-        match (f.block? c).bind (·.calledSub) |>.bind fun n => f.subs.find? (·.name == n) with
-        | some cs => .ok cs.retsubs
-        | none => .error "KeyError"
-      | none => .ok b.prev
+  -- `block == block.subroutine.entry`; a block owned by the contract's own `__main__` (shared between the
+  -- main code and a subroutine) is compared with the original entry block, which is never in the function
+  let entrySub : Option FSub := match f.sub? b.sub with
+    | some s => if s.entry == b.key then some s else none
+    | none => none
+  match entrySub with
+  | some s => if s.name != f.main.name then .ok s.callers else .ok []
+  | none =>
+    match f.callsubBlockOf b with
+    | some c =>
+      match (f.block? c).bind (·.calledSub) |>.bind fun n => f.subs.find? (·.name == n) with
+      | some cs => .ok cs.retsubs
+      | none => .error "KeyError"
+    | none => .ok b.prev
 
 /-- copy_main_cfg: re-run passes 1-4 on the instructions of the main blocks and transfer idx -/
 def copyMainCfg (t : Teal) : Except Err (List FBlock) := do
@@ -166,7 +168,7 @@ def constructFunction (t : Teal) (path : List Nat) : Except Err Function := do
   let subBlock (s : Sub) (i : Nat) : FBlock :=
     let b := t.allBlocks[i]!
     { key := i + subOff, idx := i, ins := b.ins, next := b.next.map (· + subOff),
-      prev := b.prev.map (· + subOff), sub := s.name }
+      prev := b.prev.map (· + subOff), sub := b.sub.getD s.name }
   let calledBy (keys : List Nat) (bs : List FBlock) : List String :=
     (keys.filterMap fun k => (bs.find? (·.key == k)).bind (·.calledSub)).eraseDups
   -- used-subroutine closure (worklist)
